@@ -406,7 +406,7 @@ package app
 // ======================= ProjectRunner =======================
 //@ define noLocks() bool = forall m ref :: !held(m)
 //@ define runnerWF(p *ProjectRunner) bool = p.runningProcesses != nil && p.doneProcesses != nil && p.runningProcesses != p.doneProcesses &&
-//@    (forall k string :: k in p.runningProcesses ==> p.runningProcesses[k] != nil && procWF(p.runningProcesses[k])) &&
+//@    (forall k string :: k in p.runningProcesses ==> p.runningProcesses[k] != nil && procWF(p.runningProcesses[k]) && p.runningProcesses[k].procConf.ReplicaName == k && allocated(p.runningProcesses[k]) && allocated(p.runningProcesses[k].procConf)) &&
 //@    (forall k string :: k in p.doneProcesses ==> p.doneProcesses[k] != nil && procWF(p.doneProcesses[k]))
 
 //@ func (p *ProjectRunner) getRunningProcess
@@ -507,6 +507,7 @@ package app
 //@   ensures stop-requested: !p.isOrderedShutDown ==> (forall i int {shutdownOrder[i]} :: 0 <= i && i < len(shutdownOrder) ==> cancelled(shutdownOrder[i].procRunCtx))
 //@   ensures flags-kept: monotone("abool")
 //@   ensures locks: held(p.runProcMutex) && (forall m ref :: m != addr(p.runProcMutex) ==> !held(m))
+//@   after (*app.Process).shutDown assert stopped-so-far: forall j int {shutdownOrder[j]} :: 0 <= j && j <= idx + 1 ==> cancelled(shutdownOrder[j].procRunCtx)
 //@   loop 1 invariant idx >= -1 && held(p.runProcMutex) && (forall m ref :: m != addr(p.runProcMutex) ==> !held(m))
 //@   loop 1 invariant forall j int {shutdownOrder[j]} :: 0 <= j && j <= idx ==> cancelled(shutdownOrder[j].procRunCtx)
 //@   loop 1 invariant monotone("abool")
@@ -830,13 +831,24 @@ package app
 //@    p.runningProcesses[q].procConf.ReplicaName in rev[p.runningProcesses[k].procConf.ReplicaName] &&
 //@    rev[p.runningProcesses[k].procConf.ReplicaName][p.runningProcesses[q].procConf.ReplicaName] == p.runningProcesses[q]
 
-// every running dependent q of every running dependency k is recorded under k
+// every running dependent q of every running dependency k is recorded under k, whatever the depends_on condition
+// (called with the registry lock held; the registry is keyed by replica name; only fresh maps are written)
+//@ define recordedK(rev map[string]map[string]*Process, k string, q string, proc *Process) bool = k in rev && q in rev[k] && rev[k][q] == proc
 //@ func (p *ProjectRunner) runningProcessesReverseDependencies
-//@   flag trusted bounded
-//@   requires runnerWF(p)
+//@   requires held(p.runProcMutex) && runnerWF(p)
+//@   assigns nothing
 //@   ensures complete: forall q string, k string :: q in p.runningProcesses && k in p.runningProcesses[q].procConf.DependsOn && k in p.runningProcesses ==> recorded(p, result, k, q)
 //@   ensures fresh(result) && result != nil
-//@   assigns nothing
+//@   ensures registry-untouched: unchangedOld("MapDom.Str.ptr.app.Process") && unchangedOld("MapVal.Str.ptr.app.Process")
+//@   loop 1 invariant fr1: reverseDependencies != nil && fresh(reverseDependencies) && runnerWF(p)
+//@   loop 1 invariant in1: forall n string :: n in reverseDependencies ==> reverseDependencies[n] != nil && fresh(reverseDependencies[n]) && allocated(reverseDependencies[n])
+//@   loop 1 invariant un1: unchangedOld("MapDom.Str.ptr.app.Process") && unchangedOld("MapVal.Str.ptr.app.Process") && unchangedOld("MapDom.Str.map.string.ptr.app.Process") && unchangedOld("MapVal.Str.map.string.ptr.app.Process")
+//@   loop 1 invariant done1: forall q string, k string {reverseDependencies[k][q]} :: seen1(q) && q in p.runningProcesses && k in p.runningProcesses[q].procConf.DependsOn && k in p.runningProcesses ==> recordedK(reverseDependencies, k, q, p.runningProcesses[q])
+//@   loop 2 invariant fr2: reverseDependencies != nil && fresh(reverseDependencies) && runnerWF(p) && curkey1() in p.runningProcesses && process == p.runningProcesses[curkey1()]
+//@   loop 2 invariant in2: forall n string :: n in reverseDependencies ==> reverseDependencies[n] != nil && fresh(reverseDependencies[n]) && allocated(reverseDependencies[n])
+//@   loop 2 invariant un2: unchangedOld("MapDom.Str.ptr.app.Process") && unchangedOld("MapVal.Str.ptr.app.Process") && unchangedOld("MapDom.Str.map.string.ptr.app.Process") && unchangedOld("MapVal.Str.map.string.ptr.app.Process")
+//@   loop 2 invariant done2: forall q string, k string {reverseDependencies[k][q]} :: seen1(q) && q != curkey1() && q in p.runningProcesses && k in p.runningProcesses[q].procConf.DependsOn && k in p.runningProcesses ==> recordedK(reverseDependencies, k, q, p.runningProcesses[q])
+//@   loop 2 invariant cur2: forall k string :: seen2(k) && k in process.procConf.DependsOn && k in p.runningProcesses ==> recordedK(reverseDependencies, k, curkey1(), process)
 //@ define recordedFor(p *ProjectRunner, rev map[string]map[string]*Process, k string, proc *Process) bool =
 //@    p.runningProcesses[k].procConf.ReplicaName in rev &&
 //@    proc.procConf.ReplicaName in rev[p.runningProcesses[k].procConf.ReplicaName] &&
@@ -844,7 +856,7 @@ package app
 
 // ordered shutdown: one stopper goroutine is spawned for every listed process
 //@ func (p *ProjectRunner) shutDownInOrder
-//@   requires listWF(shutdownOrder) && runnerWF(p)
+//@   requires listWF(shutdownOrder) && runnerWF(p) && held(p.runProcMutex)
 //@   ensures one-stopper-each: spawned(fntag("(*app.ProjectRunner).shutDownInOrder$1")) == old(spawned(fntag("(*app.ProjectRunner).shutDownInOrder$1"))) + len(shutdownOrder)
 //@   loop 1 invariant idx >= -1 && idx < len(shutdownOrder)
 //@   loop 1 invariant spawned(fntag("(*app.ProjectRunner).shutDownInOrder$1")) == old(spawned(fntag("(*app.ProjectRunner).shutDownInOrder$1"))) + idx + 1
